@@ -81,3 +81,14 @@ func VerifWeb(p *profile.Profile, o *plugin.Options) (map[string]http.Handler, e
 	}
 	return captured.Handlers, nil
 }
+
+// VerifParseAndFetch is the first half of PProf: setDefaults, parseFlags (which installs the option
+// state the flags describe) and fetchProfiles. It returns the profile a session or web UI starts from.
+func VerifParseAndFetch(eo *plugin.Options) (*profile.Profile, error) {
+	o := setDefaults(eo)
+	src, _, err := parseFlags(o)
+	if err != nil {
+		return nil, err
+	}
+	return fetchProfiles(src, o)
+}
